@@ -524,6 +524,12 @@ func (g *ProgGen) Gen() *Program {
 	p := &Program{Bundle: map[string]*Tmpl{}, Glob: map[string]V{}, IJ: V{"t": "none"},
 		Plan: map[string]interface{}{"kind": "none"}, Aliases: map[string]bool{}}
 	g.prog = p
+	if g.pick(3) == 0 {
+		all := []string{"/** Copyright 2020 Example. */\n", "// line comment\n", "/* block\n comment */\n", "\n\n", "/**\n * @fileoverview x\n */\n\n// more\n", "  \n/** a */ /* b */\n", ""}
+		for k := 0; k < 3; k++ {
+			p.Prologue = append(p.Prologue, all[g.pick(len(all))])
+		}
+	}
 	if g.Rich && g.pick(3) == 0 {
 		p.IJ = VMap(map[string]V{"k": VStr("inj<k>"), "n": VInt(5)})
 	}
